@@ -335,7 +335,6 @@ func (c *cTx) Fox() *Router {
 // Any attempt to write on the [ResponseWriter] will panic with the error [ErrDiscardedResponseWriter].
 func (c *cTx) Clone() Context {
 	cp := cTx{
-		rec:   c.rec,
 		req:   c.req.Clone(c.req.Context()),
 		fox:   c.fox,
 		route: c.route,
@@ -343,7 +342,23 @@ func (c *cTx) Clone() Context {
 		tsr:   c.tsr,
 	}
 
-	cp.rec.ResponseWriter = noopWriter{c.rec.Header().Clone()}
+	// Capture the state of the writer attached to this context. It is not necessarily the embedded recorder: a context
+	// obtained from Lookup or CloneWith carry the writer provided by the caller (which may be nil).
+	cp.rec.reset(nil)
+	header := make(http.Header)
+	switch w := c.w.(type) {
+	case nil:
+	case *recorder:
+		cp.rec = *w
+		header = w.Header().Clone()
+	default:
+		cp.rec.status = w.Status()
+		if w.Written() {
+			cp.rec.size = w.Size()
+		}
+		header = w.Header().Clone()
+	}
+	cp.rec.ResponseWriter = noopWriter{header}
 	cp.w = noUnwrap{&cp.rec}
 	if !c.tsr {
 		params := make(Params, len(*c.params))
